@@ -61,6 +61,9 @@ struct Scn {
     upload_drained: bool,
     /// t0 dials p1:7200 itself: (at ms after its start, think time between ping-pongs)
     dials: Vec<(u64, u64)>,
+    /// the first dialled stream turns into a download the target never reads: p1 (the ACCEPTING
+    /// side of the stream) writes until its writer is parked on the exhausted window
+    dial_flood: bool,
     /// Builder::enable_tokio_io, and the target's software uses the IO driver
     tokio_io: bool,
     inject: Inject,
@@ -86,6 +89,9 @@ enum Ev {
     PAccept { k: usize, peer: String },
     PInRead { k: usize },
     PGot { k: usize },
+    /// p1 was asked to flood stream k / completed one write of the flood
+    PFlood { k: usize },
+    PWrote { k: usize },
     PUnblocked { k: usize, how: String },
     /// target side of a dial
     TDial { t: usize, inc: u32, ok: bool },
@@ -240,9 +246,10 @@ async fn target_program(log: Log<Ev>, t: usize, inc: u32, p: TProbe, s: Scn) -> 
     };
     // outgoing connections of the target itself
     if t == 0 {
-        for (at, think) in s.dials.clone() {
+        for (di, (at, think)) in s.dials.clone().into_iter().enumerate() {
             let g = Guard::new(&gc);
             let log = log.clone();
+            let flood = s.dial_flood && di == 0;
             tokio::task::spawn_local(async move {
                 let _g = g;
                 tokio::time::sleep(Duration::from_millis(at)).await;
@@ -251,6 +258,13 @@ async fn target_program(log: Log<Ev>, t: usize, inc: u32, p: TProbe, s: Scn) -> 
                     return;
                 };
                 log.push(Ev::TDial { t, inc, ok: true });
+                if flood {
+                    // ask the accepting side to write and never read what it sends
+                    if st.write_all(&(u64::MAX - 2).to_le_bytes()).await.is_err() {
+                        return;
+                    }
+                    std::future::pending::<()>().await;
+                }
                 let mut n = 0u64;
                 loop {
                     if st.write_all(&n.to_le_bytes()).await.is_err() {
@@ -398,6 +412,18 @@ async fn peer1_program(log: Log<Ev>, s: Scn) -> turmoil::Result {
                             Err(e) => {
                                 log.push(Ev::PUnblocked { k, how: format!("read:{:?}", e.kind()) });
                                 return;
+                            }
+                        }
+                        if u64::from_le_bytes(b) == u64::MAX - 2 {
+                            log.push(Ev::PFlood { k });
+                            loop {
+                                match st.write_all(&[5u8; 64]).await {
+                                    Ok(()) => log.push(Ev::PWrote { k }),
+                                    Err(e) => {
+                                        log.push(Ev::PUnblocked { k, how: format!("write:{:?}", e.kind()) });
+                                        return;
+                                    }
+                                }
                             }
                         }
                         if let Err(e) = st.write_all(&b).await {
@@ -1069,7 +1095,17 @@ fn check(s: &Scn, ex: &Exec, twin_iso: &[String], base_steps: u64, out: &mut Sce
             if acc_step == cstep {
                 out.count("target_dialled_streams_accepted_in_the_crash_step", 1);
             }
-            let bound = cstep + lat_steps + 3;
+            // a stream p1 is flooding: its writer is (or is about to be) parked on the window;
+            // what it writes after the crash is answered with a reset one round trip later
+            let flooding = ex.evs.iter().any(|(q, _, e)| *q < cq && matches!(e, Ev::PFlood { k: kk } if *kk == k));
+            if flooding {
+                out.count("target_dialled_streams_flooded_by_acceptor_at_crash", 1);
+                let last_write = ex.evs.iter().filter(|(q, _, e)| *q < cq && matches!(e, Ev::PWrote { k: kk } if *kk == k)).map(|x| x.1).last().unwrap_or(acc_step);
+                if last_write + 2 * lat_steps + 3 < cstep {
+                    out.count("acceptor_writers_parked_on_full_window_at_crash", 1);
+                }
+            }
+            let bound = if flooding { cstep + 2 * lat_steps + 6 } else { cstep + lat_steps + 3 };
             let unb = ex.evs.iter().find_map(|(q, st, e)| match e {
                 Ev::PUnblocked { k: kk, how } if *kk == k && *q > cq => Some((*st, how.clone())),
                 _ => None,
@@ -1080,8 +1116,8 @@ fn check(s: &Scn, ex: &Exec, twin_iso: &[String], base_steps: u64, out: &mut Sce
                     if s.steps > bound {
                         out.violate(
                             "peer-not-unblocked",
-                            format!("C04|peer-not-unblocked|accepted-from-target{}|{kind}", if acc_step == cstep { "-in-crash-step" } else { "" }),
-                            format!("p1 accepted stream #{k} from t0 in step {acc_step} and was reading from it when t0 crashed after step {cstep}; expected EOF/reset by step {bound}, observed {other:?}"),
+                            format!("C04|peer-not-unblocked|accepted-from-target{}|{kind}", if flooding { "-flooding" } else if acc_step == cstep { "-in-crash-step" } else { "" }),
+                            format!("p1 accepted stream #{k} from t0 in step {acc_step} and was {} it when t0 crashed after step {cstep}; expected EOF/reset by step {bound}, observed {other:?}", if flooding { "writing to" } else { "reading from" }),
                             desc.clone(),
                         )
                     }
@@ -1197,6 +1233,7 @@ fn base(seed: u64) -> Scn {
         upload: if r.chance(0.5) { Some(r.range(2, 25)) } else { None },
         upload_drained: r.coin(),
         dials: (0..r.range(0, 3)).map(|_| (r.range(1, 45), r.pick_copy(&[0u64, 2, 7]))).collect(),
+        dial_flood: r.chance(0.4),
         tokio_io: r.chance(0.3),
         inject: Inject::None,
     }
@@ -1319,6 +1356,6 @@ fn fin() -> Finish<'static> {
             "prompt = latency + 2 steps for parked readers, 2 steps for queued connectors".into(),
         ],
         min_distinct: 10,
-        required_counters: vec!["crash_points", "bounces", "peers_parked_in_read_at_crash", "peers_unblocked_promptly", "queued_connectors_refused", "handshakes_in_flight_at_crash", "stale_syns_refused", "datagrams_reaching_down_host", "rebinds_after_bounce", "down_step_observations", "isolated_pair_events_compared", "regex_multi_host_workloads", "regex_crash_with_one_target_already_down", "bulk_streams_ended_after_crash", "uploads_open_at_crash", "upload_writers_parked_on_full_window_at_crash", "uploads_with_window_in_flight_at_crash", "upload_writers_unblocked", "incarnation_fd_tables_observed", "target_dialled_streams_open_at_crash", "target_dialled_streams_accepted_in_the_crash_step"],
+        required_counters: vec!["crash_points", "bounces", "peers_parked_in_read_at_crash", "peers_unblocked_promptly", "queued_connectors_refused", "handshakes_in_flight_at_crash", "stale_syns_refused", "datagrams_reaching_down_host", "rebinds_after_bounce", "down_step_observations", "isolated_pair_events_compared", "regex_multi_host_workloads", "regex_crash_with_one_target_already_down", "bulk_streams_ended_after_crash", "uploads_open_at_crash", "upload_writers_parked_on_full_window_at_crash", "uploads_with_window_in_flight_at_crash", "upload_writers_unblocked", "incarnation_fd_tables_observed", "target_dialled_streams_open_at_crash", "target_dialled_streams_accepted_in_the_crash_step", "acceptor_writers_parked_on_full_window_at_crash"],
     }
 }
